@@ -1460,6 +1460,60 @@ pub(crate) fn prune_repository<S: Open>(
     Ok(())
 }
 
+#[cfg(rustic_core_verif)]
+impl PrunePlan {
+    /// Verification hook: the decisions the planner takes for the given index files, set of needed blobs
+    /// and options - the planning steps of [`PrunePlan::from_prune_options`] without a repository.
+    ///
+    /// Returns (pack id, marked for deletion in the index, decision) per pack.
+    ///
+    /// # Errors
+    ///
+    /// * If a needed blob is in no pack, or an indexed pack is not in `existing_packs`
+    pub fn verif_decide(
+        needed: impl IntoIterator<Item = BlobId>,
+        existing_packs: BTreeMap<PackId, u32>,
+        index_files: Vec<(IndexId, IndexFile)>,
+        opts: &PruneOptions,
+        config: &crate::repofile::ConfigFile,
+    ) -> RusticResult<Vec<(PackId, bool, PackToDo)>> {
+        let used_ids = needed.into_iter().map(|id| (id, 0)).collect();
+        let mut total_size = BlobTypeMap::<u64>::default();
+        for (_, index) in &index_files {
+            for pack in index.packs.iter().chain(&index.packs_to_delete) {
+                total_size[pack.blob_type()] += u64::from(pack.pack_size());
+            }
+        }
+        let mut pruner = Self::new(used_ids, existing_packs, index_files);
+        pruner.count_used_blobs();
+        pruner.check()?;
+        let repack_cacheable_only = opts.repack_cacheable_only.unwrap_or(false);
+        let pack_sizer = total_size.map(|tpe, size| PackSizer::from_config(config, tpe, size));
+        pruner.decide_packs(
+            opts.keep_pack,
+            opts.keep_delete,
+            repack_cacheable_only,
+            opts.repack_uncompressed,
+            opts.repack_all,
+            &pack_sizer,
+        )?;
+        pruner.decide_repack(
+            &opts.max_repack,
+            &opts.max_unused,
+            opts.repack_uncompressed || opts.repack_all,
+            opts.no_resize,
+            &pack_sizer,
+        );
+        pruner.check_existing_packs()?;
+        Ok(pruner
+            .index_files
+            .iter()
+            .flat_map(|index| &index.packs)
+            .map(|pack| (pack.id, pack.delete_mark, pack.to_do))
+            .collect())
+    }
+}
+
 /// `PackInfo` contains information about a pack which is needed to decide what to do with the pack.
 #[derive(PartialEq, Eq, Clone, Copy, Debug)]
 struct PackInfo {
